@@ -111,7 +111,13 @@ CHECKS["C09"] = dict(
     note="Trusted as C08. Known findings: D9 (ERROR_SPA_NOT_FOUND is terminal) and D10; D8 (pump dies on reset while connecting) and D18 (stranded in SPA_READY) were fixed. Liveness under fairness is checked on the model only (thorough tier, outer timeout).",
     design="§4 C09")
 
-NOT_YET = {}
+CHECKS["C10"] = dict(
+    technique="Lifecycle.tla resource variables (endpoints, task families) with Reset/Exit at every frame boundary model-checked by TLC + crash-point enumeration of resets and context exits on the real manager with exact resource accounting on the virtual loop, records judged by TLC (C10_Judge)",
+    text="TLC checks NoTaskLeakAfterReset, NoTaskAfterExit and BracketsClosedAtExit on the Lifecycle model. On the real stack every transport handed out (and its close()) and every task (through the task factory) is tracked; resets are injected on a grid of virtual times over discovery, each handshake step, steady state and error states, context exits likewise; after each reset the endpoints and tasks of the abandoned connection are examined, late datagrams (STATP, RFERR, APING, WCERR, STATV) are delivered to every abandoned protocol object and 200 virtual seconds pass with all accessor / spa / device observers instrumented; reconnect cycles measure boundedness; a sweep of the task-tidy period moves the tidy pass relative to task creation. TLC judges every record.",
+    note="Trusted: TLC, virtual loop accounting. 'Promptly' = 0.3 s after a reset returned (discovery resources: the discovery timeout), 1 s after exit. Known finding D7b (exit without reset leaves the connection endpoint open); D7, D15, D19 were found and fixed.",
+    design="§4 C10")
+
+NOT_YET = {"C13": "check not built yet (facade command semantics against an apply-and-echo spa model); planned next"}
 
 
 def main():
